@@ -18,6 +18,7 @@ pub fn property() -> Property {
     add::<SMVReg>(&mut jobs, Disc::Causal, 12000, 100_000, &[], 0.03);
     add::<SMVReg>(&mut jobs, Disc::Any, 12000, 100_000, &[], 0.03);
     add::<MapOrswot>(&mut jobs, Disc::Causal, 18000, 200_000, &[Class::T1], 0.03);
+    add::<MapMapOrswot>(&mut jobs, Disc::Causal, 12000, 100_000, &[Class::T1], 0.03);
     add::<MapMVReg>(&mut jobs, Disc::Causal, 18000, 200_000, &[Class::T1, Class::T2, Class::T5], 0.03);
     add::<MapMapMVReg>(&mut jobs, Disc::Causal, 12000, 100_000, &[Class::T1, Class::T2, Class::T5], 0.03);
     // operands that are NOT causally closed (they hold pending removes); the comparison with the ops-only
